@@ -44,6 +44,10 @@ def plans(world, info, seed, tier):
         if pol != "canonical" and rng.random() < 0.3:
             sim["resolve"] = 1          # solve() a second time on the same object, then read the solution
         specs.append({"world": world, "sim": sim})
+    if not mr._node_mode(world) and rng.random() < 0.35:
+        # the same world after the caller used the same graph object with other flow values (x3, still conserving; or x0.5)
+        specs.append({"world": world, "sim": {"latency": "instant", "reply": "canonical", "reply_seed": rng.randrange(1 << 30), "faults": [],
+                                              "inplace_prelude": rng.choice([3, 3, 2, 0.5])}})
     w3 = mr.greedy_variant(world, rng)
     if w3 is not None:
         specs.append({"world": w3, "sim": {"latency": "instant", "reply": rng.choice(["canonical", "alt"]), "reply_seed": rng.randrange(1 << 30), "faults": []}})
